@@ -3414,6 +3414,14 @@ static size_t ZSTD_buildSeqStore(ZSTD_CCtx* zc, const void* src, size_t srcSize)
                         (unsigned long)nbExternalSeqs
                     );
                     lastLLSize = blockCompressor(ms, &zc->seqStore, zc->blockState.nextCBlock->rep, src, srcSize);
+                    /* the parsers below btopt write back two repeat offsets only : the copier of the next producer block
+                     * consults all three, so rebuild the history the decoder will have after this block */
+                    {   repcodes_t hist; const seqDef* sq;
+                        ZSTD_memcpy(&hist, zc->blockState.prevCBlock->rep, sizeof(hist));
+                        for (sq = zc->seqStore.sequencesStart; sq < zc->seqStore.sequences; sq++)
+                            ZSTD_updateRep(hist.rep, sq->offBase, ZSTD_getSequenceLength(&zc->seqStore, sq).litLength == 0);
+                        ZSTD_memcpy(zc->blockState.nextCBlock->rep, &hist, sizeof(hist));
+                    }
             }   }
         } else {   /* not long range mode and no external matchfinder */
             ZSTD_blockCompressor const blockCompressor = ZSTD_selectBlockCompressor(
